@@ -301,10 +301,50 @@ class HistoryRunner:
 				self.tainted, self.written = keep
 			self.changed_since_obs = True
 			self.kinds_seq.append('sweep')
+		elif kind == 'loop':
+			self.do_loop(i, op)
 		elif kind == 'run':
 			self.do_run(i, op)
 		else:
 			raise ValueError(f'unknown op {kind}')
+
+	def do_loop(self, i: int, op: dict[str, Any]) -> None:
+		"""The steps (run / edit / touch) once as a build loop inside ONE simulated process, then -- from the same snapshot -- as the usual
+		one-process-per-run history (which is judged against the cold oracle as always). judge_loop() sees both final results."""
+		import os as _os
+		from tranpsim import tasks
+		steps = op['steps']
+		snap = self.proj.sc.snapshot()
+		state0 = dict(self.proj.state)
+		plan: list[tuple] = []
+		for st in steps:
+			if st['op'] in ('edit', 'touch'):
+				m = st['m']
+				self.proj.set_variant(m, st['v'] if st['op'] == 'edit' else self.proj.state[m], st.get('dt', 10**9))
+				rel = pools.module_relpath(m)
+				plan.append(('write', rel, self.proj.sc.read(rel), _os.stat(self.proj.sc.path(rel)).st_mtime_ns))
+			else:
+				plan.append(('run',))
+		self.proj.sc.restore(snap)
+		self.proj.state = dict(state0)
+		self.proj.sc.clear('out')
+		rec = self.proj.run_task(tasks.loop_task(plan, self.order))
+		if rec['status'] == 'died':
+			from tranpsim.core import HarnessError
+			raise HarnessError(f'simulated build loop died without a record: {rec}')
+		loop_result = (rec['status'], self.proj.outputs() if rec['status'] == 'ok' else {}, rec.get('error'))
+		self.bump('run_outcomes', 'loop:' + rec['status'])
+		self.bump('faults_fired', 'schedule: %d runs in one process' % sum(1 for st in plan if st[0] == 'run'))
+		self.log.append(['loop', rec['status'], (rec.get('error') or {}).get('cls'), digest(loop_result[1])])
+		self.proj.sc.restore(snap)
+		self.proj.state = dict(state0)
+		for st in steps:
+			self.apply(i, st)
+		self.judge_loop(i, op, loop_result, (self.last_status, self.proj.outputs() if self.last_status == 'ok' else {}))
+		self.kinds_seq.append('loop')
+
+	def judge_loop(self, i: int, op: dict[str, Any], loop_result: tuple, separate_result: tuple) -> None:
+		pass
 
 	def do_run(self, i: int, op: dict[str, Any]) -> None:
 		spec = op.get('fault')
